@@ -459,6 +459,14 @@ class Program(object):
                 cur_f, ref_f = alpha._functions(m.tree), alpha._functions(rtree)
                 for q, fn in cur_f.items():
                     if q in ref_f and ast.dump(fn) != ast.dump(ref_f[q]):
+                        for x in inline.unfold_mapping_comprehensions(
+                                fn, ref_f[q]):
+                            self.inlined.append(
+                                (m.name, q, 'mapping comprehension %s '
+                                 'unfolded' % x))
+                        if inline.fold_dict_updates(fn):
+                            self.inlined.append((m.name, q,
+                                                 'dict update folded'))
                         for x in inline.forward_new_temps(fn, ref_f[q]):
                             self.inlined.append((m.name, q,
                                                  'temporary %s' % x))
